@@ -208,9 +208,22 @@ pub fn run(tier: Tier, seed: u64) -> i32 {
             cases.push(Case::new("virtual signal error after the call", prog.clone(), sigs_b.clone(), ov, menu.clone(), menu.clone(), 8));
         }
     }
+    // far beyond the enumerated scope: 300 clock rows (more than 255 and 256*3 calls)
+    {
+        let l = |n: i64| Entry::Lit(n, Radix::Dec);
+        let prog = Program { header: vec!["CLK".into(), "A".into(), "Q".into()], body: vec![Stmt::Loop("k".into(), lit(300), vec![Stmt::Row(vec![Entry::C, Entry::Paren(name("k")), Entry::X])]), Stmt::Row(vec![l(0), l(1), l(2)])] };
+        for ov in [true, false] {
+            let mut c = Case::new(&format!("300 clock rows {}", if ov { "Ov" } else { "Fw" }), prog.clone(), sigs_a.clone(), ov, ans_a.clone(), ans_a.clone(), 1000);
+            c.fuel = (20_000, 2_000);
+            cases.push(c);
+        }
+    }
     let res = explore(cases, oracle(), true, &deadline);
     let mut st = res.stats;
     st.nontrivial = st.states;
+    if st.max_depth >= 900 {
+        st.witness("run_of_more_than_900_calls");
+    }
     st.space("(a) row-sequence programs x driver variants", na);
     st.space("(b) feedback programs x driver variants", nb);
     st.sample(|| json!({"case": "CLK A Q / let k = 1 ; / 0 1 X / 0 1 X / C 1 1", "oracle": "call log vs yielded items: one call per row, verbatim inputs incl. changed flags, kind <-> outputs.is_empty(), none for expression errors and after the end"}));
@@ -222,7 +235,7 @@ pub fn run(tier: Tier, seed: u64) -> i32 {
         assumptions: vec![
             "the oracle uses only the subject's own items and the driver's log; the reference interpreter is used to predict which kind of call comes next (to build the script) and whether an error item precedes or follows its call".into(),
         ],
-        required_witnesses: vec!["constructor_call_checked", "checked_row_output_reading_call", "mid_clock_row_write_only_call", "mid_clock_row_through_default_write_input", "expression_error_item_without_call", "end_of_iteration", "next_after_end"],
+        required_witnesses: vec!["constructor_call_checked", "checked_row_output_reading_call", "mid_clock_row_write_only_call", "mid_clock_row_through_default_write_input", "expression_error_item_without_call", "end_of_iteration", "next_after_end", "run_of_more_than_900_calls"],
         exhaustive_note: "every reachable state up to the depth bound for every case".into(),
         e1: true,
     };
